@@ -69,6 +69,8 @@ def tasks(tier, seed):
         out.append({"fn": "fresh", "kwargs": {"model": model}, "label": f"cache/{model}"})
         for case in REWRITES:
             out.append({"fn": "fresh", "kwargs": {"model": model, "case": case}, "label": f"cache/{model}/{case}"})
+    for i in range(0, len(FORMAT_CASES), 6):
+        out.append({"fn": "formats_witness", "kwargs": {"cases": [list(c) for c in FORMAT_CASES[i:i + 6]]}, "label": f"witness/formats/{i // 6}", "kind": "direct"})
     return out
 
 
@@ -273,8 +275,77 @@ def fresh(model, case=None):
     vx.prove(f"C20/cache/fresh_after_rewrite/{lab}", arr_eq(r2, B))
 
 
+FORMAT_CASES = [(fmt, dt) for fmt in ("npy", "fits") for dt in ("uint8", "uint16", "uint32", "int16", "int32", "int64", "float32", "float64")] + \
+    [("fits_scaled", "float64"), ("txt_space", "float64"), ("txt_comma", "float64"), ("txt_pipe", "float64"), ("txt_tab", "float64"), ("data", "float64"), ("txt_1row", "float64"), ("txt_1col", "float64")]
+
+
+def _format_case(fmt, dt, variant=0):
+    """Write an image of dtype `dt` in format `fmt` with the standard writer, read it back with pyxel.inputs.load_image."""
+    import numpy as np
+    from astropy.io import fits
+
+    from pyxel.inputs import load_image
+
+    d = np.dtype(dt)
+    if d.kind in "iu":
+        info = np.iinfo(d)
+        pool = [info.min, info.min + 1, 0, 1, 2, info.max - 1, info.max, info.max // 2, info.max // 2 + 1]
+        if d.itemsize == 8:
+            pool = [v for v in pool if abs(v) <= 2**53]  # the text / float paths of the property are about values a double holds
+    else:
+        pool = [0.0, 1.0, -1.5, 0.1, 1e-30, 1e30, 65535.0, 2.5e-7, 123456.789]
+    shape = (3, 2) if variant % 2 == 0 else (2, 3)
+    vals = [pool[(i + variant) % len(pool)] for i in range(6)]
+    arr = np.array(vals, dtype=d).reshape(shape)
+    tmp = tempfile.mkdtemp(prefix="vx_c20_")
+    try:
+        if fmt == "npy":
+            path = os.path.join(tmp, "img.npy")
+            np.save(path, arr)
+        elif fmt == "fits":
+            path = os.path.join(tmp, "img.fits")
+            fits.PrimaryHDU(arr).writeto(path)
+        elif fmt == "fits_scaled":
+            path = os.path.join(tmp, "img.fits")
+            hdu = fits.PrimaryHDU(np.array([[0, 1, 2], [10, 100, 1000]], dtype=np.int16))
+            hdu.header["BSCALE"], hdu.header["BZERO"] = 0.5, 10.0
+            hdu.writeto(path)
+            arr = np.array([[0, 1, 2], [10, 100, 1000]], dtype=float) * 0.5 + 10.0
+        else:
+            if fmt == "txt_1row":
+                arr = arr.reshape(1, -1)
+            elif fmt == "txt_1col":
+                arr = arr.reshape(-1, 1)
+            sep = {"txt_space": " ", "txt_comma": ",", "txt_pipe": "|", "txt_tab": "\t", "data": " ", "txt_1row": " ", "txt_1col": " "}[fmt]
+            path = os.path.join(tmp, "img.data" if fmt == "data" else "img.txt")
+            np.savetxt(path, arr, delimiter=sep, fmt="%.17g")
+        back = np.asarray(load_image(path))
+    finally:
+        import shutil
+
+        shutil.rmtree(tmp, ignore_errors=True)
+    same = back.shape == arr.shape and bool(np.all(back.astype(object) == arr.astype(object))) if d.kind in "iu" and not fmt.startswith(("txt", "data", "fits_scaled")) else (
+        back.shape == arr.shape and bool(np.array_equal(np.asarray(back, dtype=float), np.asarray(arr, dtype=float))))
+    return same, {"format": fmt, "dtype": dt, "stored": arr.tolist(), "read_back": back.tolist(), "read_back_dtype": str(back.dtype)}
+
+
+def formats_witness(tier, seed, cases):
+    """First sentence of the statement (same shape and values after a write / read cycle): the decoders are C / third-party code, so this
+    is a concrete witness layer - boundary values of every integer width and awkward doubles, written by the standard writer."""
+    obligations = []
+    for fmt, dt in cases:
+        for variant in range(2 if tier == "quick" else 6):
+            same, info = _format_case(fmt, dt, variant + seed)
+            obligations.append({"id": f"C20/formats/roundtrip/{fmt},{dt}", "verdict": "unsat" if same else "sat", "info": info, "model": {"fmt": fmt, "dtype": dt, "variant": variant + seed}, "observed": {}})
+    return {"obligations": obligations, "paths": len(obligations), "reached": {o["id"]: 1 for o in obligations}}
+
+
 def replay(oid, kwargs, model, data):
     import numpy as np
+
+    if data["fn"] == "formats_witness":
+        same, info = _format_case(model["fmt"], model["dtype"], int(model["variant"]))
+        return (not same), info
 
     from pyxel.util import fit_into_array
 
